@@ -4,7 +4,7 @@ from .common import generic_replay
 
 
 def run(tier):
-    return relcheck.rel_check("C10", ("SIM.",), ["Noh", "Cog19", "RiemannIG", "Mader", "Sedov", "EHEP"], ["Similar"], tier)
+    return relcheck.rel_check("C10", ("SIM.",), ["Noh", "Cog19", "RiemannIG", "Mader", "Sedov", "EHEP", "Guderley"], ["Similar"], tier)
 
 
 def replay(path):
